@@ -53,6 +53,22 @@ HELPERS_BYTES = r'''
 fn bytes_of<T: AsRef<[u8]>>(t: &T) -> Vec<u8> { t.as_ref().to_vec() }
 fn check<T: AsRef<[u8]>>(t: &T, c: &[u8]) { let now = t.as_ref().to_vec(); assert!(now == c, "escaped bytes changed"); }
 '''
+HELPERS_PROBE = r'''
+// reads the bytes a value exposes through the public accessors
+trait Probe { fn pb(&self) -> Vec<u8>; }
+impl<'b, 'tx> Probe for KVPair<'b, 'tx> { fn pb(&self) -> Vec<u8> { let mut v = self.key().to_vec(); v.extend_from_slice(self.value()); v } }
+impl<'b, 'tx> Probe for Data<'b, 'tx> { fn pb(&self) -> Vec<u8> { let mut v = self.key().to_vec(); if self.is_kv() { v.extend_from_slice(self.kv().value()); } v } }
+impl<'b, 'tx> Probe for BucketName<'b, 'tx> { fn pb(&self) -> Vec<u8> { self.name().to_vec() } }
+impl Probe for [u8] { fn pb(&self) -> Vec<u8> { self.to_vec() } }
+impl<T: Probe + ?Sized> Probe for &T { fn pb(&self) -> Vec<u8> { (**self).pb() } }
+impl<T: Probe> Probe for Option<T> { fn pb(&self) -> Vec<u8> { match self { Some(x) => x.pb(), None => Vec::new() } } }
+impl<T: Probe, E> Probe for Result<T, E> { fn pb(&self) -> Vec<u8> { match self { Ok(x) => x.pb(), Err(_) => Vec::new() } } }
+impl<T: Probe> Probe for Vec<T> { fn pb(&self) -> Vec<u8> { let mut v = Vec::new(); for x in self { v.extend(x.pb()); } v } }
+impl<T: Probe> Probe for Box<T> { fn pb(&self) -> Vec<u8> { (**self).pb() } }
+impl<T: Probe, U> Probe for (T, U) { fn pb(&self) -> Vec<u8> { self.0.pb() } }
+fn bytes_of<T: Probe>(t: &T) -> Vec<u8> { t.pb() }
+fn check<T: Probe>(t: &T, c: &[u8]) { let now = t.pb(); assert!(now == c, "escaped bytes changed"); }
+'''
 HELPERS_SIZED = r'''
 fn bytes_of<T>(_t: &T) -> Vec<u8> { Vec::new() }
 fn check<T>(t: &T, _c: &[u8]) { let _ = t; }
@@ -62,8 +78,8 @@ B = 'let b = tx.get_bucket("b").unwrap(); '
 
 def route_program(route, pre, expr, keep):
     """keep = 'bytes' | 'sized'"""
-    helpers = HELPERS_BYTES if keep == "bytes" else HELPERS_SIZED
-    keep_bound = "AsRef<[u8]>" if keep == "bytes" else "Sized"
+    helpers = {"bytes": HELPERS_BYTES, "probe": HELPERS_PROBE, "sized": HELPERS_SIZED}[keep]
+    keep_bound = {"bytes": "AsRef<[u8]>", "probe": "Probe", "sized": "Sized"}[keep]
     if route == "scope":
         body = f'''fn main() {{
     let db = setup();
@@ -113,7 +129,7 @@ fn main() {{
 PRODUCERS = {
     "Tx": dict(pre="", recv="tx"),
     "Bucket": dict(pre=B, recv="b"),
-    "Cursor": dict(pre=B + "let mut c = b.cursor(); ", recv="c"),
+    "Cursor": dict(pre=B + 'let mut c = b.cursor(); c.seek("k"); ', recv="c"),
     "Range": dict(pre=B + "let mut r = b.range(..); ", recv="r"),
     "Buckets": dict(pre=B + "let mut it = b.cursor().to_buckets(); ", recv="it"),
     "KVPairs": dict(pre=B + "let mut it = b.cursor().to_kv_pairs(); ", recv="it"),
@@ -128,8 +144,10 @@ SLICE_ROUTES = ["scope", "commit", "return", "store"]
 
 def corpus():
     progs = []
+    OPAQUE_NAMES = ("Bucket", "Cursor", "Range", "Buckets-iter", "KVPairs-iter", "Tx-buckets-iter", "Bucket-from-iter", "sub-Bucket", "new-Bucket", "goc-Bucket", "IntoIter")
     def add(pid, typ, route, pre, expr, handle=True):
-        progs.append(dict(id=pid, origin="corpus", type=typ, route=route, pre=pre, expr=expr, handle=handle))
+        progs.append(dict(id=pid, origin="corpus", type=typ, route=route, pre=pre, expr=expr, handle=handle,
+                          kind="opaque" if typ in OPAQUE_NAMES else "probe"))
     items = [
         ("Bucket", B, "b", True),
         ("Cursor", B, "b.cursor()", True),
@@ -164,7 +182,7 @@ def corpus():
             add(f"corpus/{name}/{route}", name, route, pre, expr, handle)
     # the transaction itself: threads, and past its database
     for route in ("spawn", "scoped"):
-        progs.append(dict(id=f"corpus/Tx/{route}", origin="corpus", type="Tx", route=route, pre="", expr="&tx", handle=True))
+        progs.append(dict(id=f"corpus/Tx/{route}", origin="corpus", type="Tx", route=route, pre="", expr="&tx", handle=True, kind="opaque"))
     return progs
 
 SPECIAL = [
@@ -345,6 +363,28 @@ def mentions_handle(t, idx, depth=0):
         return any(mentions_handle(x, idx, depth + 1) for x in t)
     return False
 
+OPAQUE_TYPES = {"Bucket", "Cursor", "Range", "Buckets", "KVPairs", "Tx"}
+
+def mentions_opaque(t, idx, depth=0):
+    """a handle whose contents cannot be read back through accessors: buckets, cursors, iterators"""
+    if t is None or depth > 8:
+        return False
+    if isinstance(t, dict):
+        for k, v in t.items():
+            if k in ("impl_trait", "dyn_trait"):
+                return True
+            if k == "resolved_path":
+                it = idx.get(str(v.get("id")))
+                if it is not None and it.get("crate_id") == 0 and it.get("name") in OPAQUE_TYPES:
+                    return True
+                if mentions_opaque(v.get("args"), idx, depth + 1):
+                    return True
+            elif mentions_opaque(v, idx, depth + 1):
+                return True
+    elif isinstance(t, list):
+        return any(mentions_opaque(x, idx, depth + 1) for x in t)
+    return False
+
 def synth_arg(name, ty, generics, n):
     """Returns source text for an argument or None."""
     bounds = {}
@@ -441,10 +481,11 @@ def surface_programs(jpath):
                 expr = f'{recv}.{mname}({", ".join(args)})'
                 # thread routes apply to handles: results that mention a type of this crate or an opaque iterator
                 is_handle = mentions_handle(out, idx)
+                kind = "opaque" if mentions_opaque(out, idx) else "probe"
                 routes = HANDLE_ROUTES if is_handle else SLICE_ROUTES
                 for route in routes:
                     progs.append(dict(id=f"{base}/{route}", origin="surface",
-                                      type=f"{tname}::{mname}", route=route, pre=prod["pre"], expr=expr, handle=is_handle))
+                                      type=f"{tname}::{mname}", route=route, pre=prod["pre"], expr=expr, handle=is_handle, kind=kind))
     for t in PRODUCERS:
         if t not in seen_types:
             uncovered.append(f"producer for {t} but the type is not in the public surface any more")
@@ -489,7 +530,7 @@ def judge_escape(prog, work, rlib, deps):
     """Returns a result dict for one escape program."""
     res = dict(id=prog["id"], origin=prog["origin"], type=prog["type"], route=prog["route"], expr=prog["expr"])
     thread_route = prog["route"] in ("spawn", "scoped")
-    variants = ["bytes", "sized"] if not thread_route else ["sized"]
+    variants = ["bytes", "probe", "sized"] if not thread_route else ["sized"]
     last = None
     for keep in variants:
         src = route_program(prog["route"], prog["pre"], prog["expr"], keep)
@@ -518,6 +559,12 @@ def judge_escape(prog, work, rlib, deps):
         # it compiles
         if thread_route:
             res["verdict"] = "compiled_thread_escape"
+            res["src"] = src
+            shutil.rmtree(d, ignore_errors=True)
+            return res
+        if keep == "sized" and prog.get("kind") == "opaque":
+            # a bucket / cursor / iterator handle that outlives its transaction
+            res["verdict"] = "compiled_handle_escape"
             res["src"] = src
             shutil.rmtree(d, ignore_errors=True)
             return res
